@@ -1019,11 +1019,17 @@ def graphql_schema(
         id_type: graphql.GraphQLScalarType = graphql.GraphQLID
     else:
         id_deserializer, id_serializer = id_encoding
+
+        def parse_id_literal(node, variables=None):
+            # literals of the query text are decoded like variable values
+            value = graphql.GraphQLID.parse_literal(node, variables)
+            return value if id_deserializer is None else id_deserializer(value)
+
         id_type = graphql.GraphQLScalarType(
             name="ID",
             serialize=id_serializer or graphql.GraphQLID.serialize,
             parse_value=id_deserializer or graphql.GraphQLID.parse_value,
-            parse_literal=graphql.GraphQLID.parse_literal,
+            parse_literal=parse_id_literal,
             description=graphql.GraphQLID.description,
         )
 
